@@ -16,6 +16,8 @@ pub struct ERoot {
     pub distributor: bool,
     pub duration_ns: u64,
     pub hooks: usize,
+    /// sub-second part of the genesis time
+    pub genesis_frac_ns: u64,
 }
 
 pub struct EpochScn {
@@ -77,7 +79,7 @@ impl Scenario for EpochScn {
     }
     fn setup(&self, root: usize, w: &mut World) -> (EH, EG) {
         let r = &self.roots[root];
-        let genesis_ns = GENESIS_TIME_NS + GEN_OFFSET;
+        let genesis_ns = GENESIS_TIME_NS + GEN_OFFSET + r.genesis_frac_ns;
         if r.distributor {
             let mut o = HubOpts::basic(genesis_ns, 2);
             o.duration_ns = r.duration_ns;
